@@ -180,7 +180,7 @@ CHECKS["C04"] = {
             "agree to 1e-7. The in-situ side (every sampler call during signing has sigma' in range) is monitored by C09's "
             "in-situ leg. Seeds: derived from VERIF_SEED, counter seeds, and the regression seeds of C05. "
             "distinct_nontrivial = distinct seeds whose key passed through all oracles.",
-    "assumptions": ["i128 / reference-ring arithmetic of the harness", "about 130 keys quick, 4600 thorough out of 2^256 seeds"],
+    "assumptions": ["i128 / reference-ring arithmetic of the harness", "about 270 keys quick, 6900 thorough out of 2^256 seeds"],
     "legs": [{"name": "keys"}],
     "technique": "invariant monitor at read-only hooks (basis and tree leaves) with exact integer oracles and an independent Gram-Schmidt cross-check",
     "level_text": "Sampled over seeds; each sampled key is checked exactly (integer identities) and numerically (leaf range, determinant identity, independent Gram-Schmidt).",
